@@ -13,8 +13,22 @@ def code_lines(path):
     lines = open(path, encoding="utf-8").read().split("\n")
     out = []
     in_test = False
+    hook_depth = None   # inside a block introduced by #[cfg(gamedig_verif)] (verification hook, not project code)
+    hook_pending = False
     for i, l in enumerate(lines):
         s = l.strip()
+        if s.startswith("#[cfg(gamedig_verif)]"):
+            hook_pending = True
+            continue
+        if hook_pending:
+            hook_pending = False
+            if s.endswith("{"):
+                hook_depth = len(l) - len(l.lstrip())
+            continue
+        if hook_depth is not None:
+            if s == "}" and len(l) - len(l.lstrip()) == hook_depth:
+                hook_depth = None
+            continue
         if s.startswith("#[cfg(test)]"):
             in_test = True   # test modules sit at the end of the file in this code base
         if in_test: continue
